@@ -35,11 +35,14 @@ theorem derives_zero {g : Grammar} (hwf : WfFacts g) {y : List Nat} (h : Derives
 
 /-! ### the stack in the final state -/
 
-theorem finalOk_elim {g : Grammar} {t : Tables} {i : Nat} (h : finalOk g t i = true) :
+theorem finalOk_elim {g : Grammar} {t : Tables} {cert : Cert} {i : Nat}
+    (h : finalOk g t cert i = true) :
     ∃ (gi : GInput) (f l : Int), g.inputs[i]? = some gi ∧ t.finalStates[i]? = some f ∧
       gotoState t i gi.sym = some l ∧ (g.inputs.size : Int) ≤ l ∧ (g.inputs.size : Int) ≤ f ∧
-      (∀ p x q, (p, x, q) ∈ edges t → q = l → p = i ∧ x = gi.sym) ∧
-      ((gi.eoi = true ∧ f ≠ l ∧ ∀ p x q, (p, x, q) ∈ edges t → q = f → (p : Int) = l ∧ x = 0) ∨
+      reachOk t cert i = true ∧
+      (∀ p x q, (p, x, q) ∈ edges t → p ∈ reachOf cert i → q = l → p = i ∧ x = gi.sym) ∧
+      ((gi.eoi = true ∧ f ≠ l ∧
+          ∀ p x q, (p, x, q) ∈ edges t → p ∈ reachOf cert i → q = f → (p : Int) = l ∧ x = 0) ∨
        (gi.eoi = false ∧ f = l)) := by
   unfold finalOk at h
   split at h
@@ -47,12 +50,14 @@ theorem finalOk_elim {g : Grammar} {t : Tables} {i : Nat} (h : finalOk g t i = t
     split at h
     · rename_i l hl
       simp only [Bool.and_eq_true, decide_eq_true_eq, List.all_eq_true] at h
-      obtain ⟨⟨⟨h1, h2⟩, h3⟩, h4⟩ := h
-      refine ⟨gi, f, l, hgi, hf, hl, h1, h2, ?_, ?_⟩
-      · intro p x q hm hq
+      obtain ⟨⟨⟨⟨h1, h2⟩, hr⟩, h3⟩, h4⟩ := h
+      refine ⟨gi, f, l, hgi, hf, hl, h1, h2, hr, ?_, ?_⟩
+      · intro p x q hm hp hq
         have := h3 (p, x, q) hm
-        simp only [Bool.or_eq_true, bne_iff_ne, ne_eq, Bool.and_eq_true, beq_iff_eq] at this
-        rcases this with h | h
+        simp only [Bool.or_eq_true, Bool.not_eq_true', List.contains_eq_mem, decide_eq_false_iff_not,
+          bne_iff_ne, ne_eq, Bool.and_eq_true, beq_iff_eq] at this
+        rcases this with (h | h) | h
+        · exact absurd hp h
         · exact absurd hq h
         · exact h
       · cases he : gi.eoi with
@@ -60,10 +65,12 @@ theorem finalOk_elim {g : Grammar} {t : Tables} {i : Nat} (h : finalOk g t i = t
           rw [he] at h4
           simp only [if_true, Bool.and_eq_true, decide_eq_true_eq, List.all_eq_true] at h4
           refine Or.inl ⟨rfl, h4.1, ?_⟩
-          intro p x q hm hq
+          intro p x q hm hp hq
           have := h4.2 (p, x, q) hm
-          simp only [Bool.or_eq_true, bne_iff_ne, ne_eq, Bool.and_eq_true, beq_iff_eq] at this
-          rcases this with h | h
+          simp only [Bool.or_eq_true, Bool.not_eq_true', List.contains_eq_mem,
+            decide_eq_false_iff_not, bne_iff_ne, ne_eq, Bool.and_eq_true, beq_iff_eq] at this
+          rcases this with (h | h) | h
+          · exact absurd hp h
           · exact absurd hq h
           · exact h
         | false =>
@@ -72,6 +79,30 @@ theorem finalOk_elim {g : Grammar} {t : Tables} {i : Nat} (h : finalOk g t i = t
           exact Or.inr ⟨rfl, h4⟩
     · cases h
   · cases h
+
+theorem reachOk_elim {t : Tables} {cert : Cert} {i : Nat} (h : reachOk t cert i = true) :
+    i ∈ reachOf cert i ∧
+    ∀ p x (q : Nat), (p, x, (q : Int)) ∈ edges t → p ∈ reachOf cert i → q ∈ reachOf cert i := by
+  unfold reachOk at h
+  simp only [Bool.and_eq_true, List.contains_eq_mem, decide_eq_true_eq, List.all_eq_true] at h
+  refine ⟨h.1, ?_⟩
+  intro p x q hm hp
+  have := h.2 (p, x, (q : Int)) hm
+  simp only [Bool.or_eq_true, Bool.not_eq_true', decide_eq_false_iff_not,
+    decide_eq_true_eq, Int.toNat_natCast] at this
+  rcases this with (h | h) | h
+  · exact absurd hp h
+  · omega
+  · exact h
+
+/-- every state on the stack is in the reachable set of the certificate -/
+theorem StackOk.reach {g : Grammar} {t : Tables} {cert : Cert} {i : Nat}
+    (hr : reachOk t cert i = true)
+    {stk : List Entry} {s : Nat} {syms : List Int} {w : List Nat}
+    (h : StackOk g t i stk s syms w) : s ∈ reachOf cert i := by
+  induction h with
+  | base e he => exact (reachOk_elim hr).1
+  | push e rest p X q syms w y _ _ _ hE _ ih => exact (reachOk_elim hr).2 p X q (edge_mem hE) ih
 
 /-- below an entry state there is nothing -/
 theorem StackOk.entry {g : Grammar} {t : Tables} {cert : Cert} {i : Nat} (hc : CertFacts g t cert)
@@ -89,7 +120,7 @@ theorem final_yield {g : Grammar} {t : Tables} {cert : Cert} {i : Nat} (hc : Cer
     (hsf : (s : Int) = f) :
     ∃ gi u, g.inputs[i]? = some gi ∧ Derives g gi.sym u ∧
       ((gi.eoi = true ∧ w = u ++ [0]) ∨ (gi.eoi = false ∧ w = u)) := by
-  obtain ⟨gi, f', l, hgi, hf', hl, hl1, hf1, hedge, hcase⟩ := finalOk_elim (hc.finals i hi)
+  obtain ⟨gi, f', l, hgi, hf', hl, hl1, hf1, hr, hedge, hcase⟩ := finalOk_elim (hc.finals i hi)
   rw [hf] at hf'
   injection hf' with hf'
   subst hf' hsf
@@ -97,20 +128,21 @@ theorem final_yield {g : Grammar} {t : Tables} {cert : Cert} {i : Nat} (hc : Cer
   | base e he => omega
   | push e rest p X q syms w y hrest _ _ hE hD =>
     have hm := edge_mem hE
+    have hpr := hrest.reach hr
     rcases hcase with ⟨he, hne, hedge2⟩ | ⟨he, hfl⟩
-    · obtain ⟨hp, hX⟩ := hedge2 _ _ _ hm rfl
+    · obtain ⟨hp, hX⟩ := hedge2 _ _ _ hm hpr rfl
       subst hX
       have hy := derives_zero (wfFacts hc.wf) hD
       subst hy
       cases hrest with
       | base e he => omega
       | push e' rest' p' X' q' syms' w' y' hrest' _ _ hE' hD' =>
-        obtain ⟨hp', hX'⟩ := hedge _ _ _ (edge_mem hE') hp
+        obtain ⟨hp', hX'⟩ := hedge _ _ _ (edge_mem hE') (hrest'.reach hr) hp
         subst hp' hX'
         have := hrest'.entry hc hi
         subst this
         exact ⟨gi, y', hgi, hD', Or.inl ⟨he, by simp⟩⟩
-    · obtain ⟨hp, hX⟩ := hedge _ _ _ hm hfl
+    · obtain ⟨hp, hX⟩ := hedge _ _ _ hm hpr hfl
       subst hp hX
       have := hrest.entry hc hi
       subst this
